@@ -3,7 +3,7 @@ from __future__ import annotations
 
 import ast
 
-from sa.loader import norm, norm1, walk_shallow, own_nodes, call_name
+from sa.loader import recv, norm, norm1, walk_shallow, own_nodes, call_name
 from sa.typestate import check_language
 from sa.tables import fold, Unfoldable
 from sa.rulekit import (nodes_where, node_calls, node_roots, nodes_calling, return_nodes, own,
@@ -185,7 +185,7 @@ def run(ck):
                             and norm(x.slice) == keytext:
                         res.append(n)
                     if isinstance(x, ast.Call) and call_name(x) == 'get' and \
-                            norm(x.func.value) == 'self._ct_transition' and x.args and \
+                            recv(x) == 'self._ct_transition' and x.args and \
                             norm(x.args[0]) == keytext:
                         res.append(n)
         return res
@@ -341,7 +341,7 @@ def run(ck):
           ctx, take[0].ast if take else ctx.node)
 
     # ------------------------------------------------------------------ R03.6
-    sets = nodes_where(g, lambda n: any(call_name(c) == 'set' and norm(c.func.value) == 'fsm_event_data'
+    sets = nodes_where(g, lambda n: any(call_name(c) == 'set' and recv(c) == 'fsm_event_data'
                                         for c in node_calls(n)))
     rebinds = nodes_where(g, lambda n: n.kind == 'stmt' and isinstance(n.ast, ast.Assign) and
                           any('data' == x.id for t in n.ast.targets for x in walk_shallow(t)
@@ -366,7 +366,7 @@ def run(ck):
           witness=path_witness(g, wit[0]) if wit else None)
     okro = bool(sets)
     for s in sets:
-        c = [c for c in node_calls(s, 'set') if norm(c.func.value) == 'fsm_event_data'][0]
+        c = [c for c in node_calls(s, 'set') if recv(c) == 'fsm_event_data'][0]
         arg = c.args[0] if c.args else None
         exprs = [arg]
         if isinstance(arg, ast.Name):
